@@ -34,6 +34,8 @@ CHECKS = {
          "Held on generated list/note/TOC call sequences on new and reopened documents, one and several live documents, all list types/symbols/levels -1..25/start numbers, MaxLevel 1-9, update and regenerate."),
  "C07": ("exploration", "differential monitor (every script alone vs after / interleaved with / concurrent to other scripts: canonical packages and accessor results) + Go race detector over the concurrent workload, reports keyed by innermost library function pair", "3.5, 4/C07",
          "Held on generated groups of 2-8 scripts on distinct documents in three schedules (sequential, call-interleaved, goroutines with yields at hook points); the race binary observed no report on the interleavings that occurred."),
+ "C17": ("exploration", "purity monitor (deep snapshots of template, base document and data around every render), repeatability and independence differential (re-render every loaded template after every cache mutation), race detector on one shared engine, linearizability check of the recorded cache history against a sequential map model (porcupine)", "3.3, 3.5, 4/C17",
+         "Held on generated load/load-from-document/render/remove/clear sequences with inheritance chains and siblings, and on concurrent histories of 2-8 goroutines on one engine; linearizability decided per history with a timeout (timeout = inconclusive)."),
 }
 PENDING = {}
 ALL = ["C%02d" % i for i in range(1, 21)]
